@@ -304,7 +304,8 @@ struct_meta_schema["definitions"]["root"]["properties"]["items"] = struct_meta_s
 # binaryFormat matches regex
 struct_meta_schema["properties"]["binaryFormat"] = {
     "type": "string",
-    "pattern": r"^([cbB\?hHiIlLqQfd]|\d*[spx])$",
+    # A Pascal string needs at least its length byte: "0p" is not allowed
+    "pattern": r"^([cbB\?hHiIlLqQfd]|\d*[sx]|p|0*[1-9]\d*p)$",
 }
 struct_meta_schema["definitions"]["root"]["properties"]["binaryFormat"] = (
     struct_meta_schema["properties"]["binaryFormat"]
